@@ -36,6 +36,16 @@ check("C18", "proof",
       "through its contract, validated on representative texts per class; plus an end-to-end bounded stand-in "
       "(translate, parse, evaluate under all assignments).",
       "contract-based deductive verification with ghost state (precedence typing) + exhaustive finite tables", "DESIGN.md 4/C18")
+check("C08", "proof",
+      "bool_lt..bool_ne (boolean() around operator.*, through type_matched and the class dunders) are executed "
+      "symbolically for same-class int/uint/double(no NaN)/bool/string/bytes operands: the result is BoolType of the "
+      "builtin payload order; the payload orders are shown coherent as z3 lemmas (reflexive, symmetric, != negates ==, "
+      "strict total order, converse, <= is < or ==, trichotomy). ListType.__eq__/__ne__ are proved for lists of unknown "
+      "length by an inductive fold invariant with element equality an arbitrary boolean per pair; MapType.__eq__/__ne__ "
+      "for every key-set shape over three keys with arbitrary values.",
+      "timestamps, durations, bytes ordering and nesting are a bounded stand-in on boundary values; element-equality "
+      "abstraction assumes same-typed elements (the property's precondition).",
+      "contract-based deductive verification: symbolic execution + z3 lemmas + inductive fold invariant", "DESIGN.md 4/C08")
 _pending = "contracts for this property are not built yet in this revision (work in progress, see DESIGN.md section 8 build order)"
-for _p in ["C03","C04","C05","C06","C07","C08","C09","C10","C11","C12","C14","C15","C16","C17","C19","C20"]:
+for _p in ["C03","C04","C05","C06","C07","C09","C10","C11","C12","C14","C15","C16","C17","C19","C20"]:
     NA[_p] = _pending
